@@ -1,8 +1,8 @@
 package core
 
 import (
-	"go/constant"
 	"fmt"
+	"go/constant"
 	"go/token"
 	"go/types"
 	"sort"
@@ -57,9 +57,9 @@ type Model struct {
 	Release map[*ssa.Function]bool
 	// Wrappers are functions that, on every path, perform exactly one acquire (or one release)
 	// of a lock derived from one of their parameters; call sites of a wrapper are lock events.
-	Wrappers map[*ssa.Function]LockWrapper
+	Wrappers    map[*ssa.Function]LockWrapper
 	HandleCtors map[*ssa.Function]HandleCtor
-	Problems []string
+	Problems    []string
 	// cache layer
 	CacheT    [2]*types.Named // xsyncMap, xsyncMapOf (inner objects)
 	WrapT     [2]*types.Named // wrappers
@@ -231,6 +231,20 @@ func (m *Model) findLockHelpers() {
 			m.Release[f] = true
 		}
 	}
+}
+
+// holdsMutex: the struct has a sync.Mutex field, directly or inside a struct-typed field (a named lock wrapper).
+func holdsMutex(st *types.Struct, depth int) bool {
+	for i := 0; i < st.NumFields(); i++ {
+		t := st.Field(i).Type()
+		if n, ok := t.(*types.Named); ok && n.Obj().Pkg() != nil && n.Obj().Pkg().Path() == "sync" && n.Obj().Name() == "Mutex" {
+			return true
+		}
+		if inner, ok := t.Underlying().(*types.Struct); ok && depth < 2 && holdsMutex(inner, depth+1) {
+			return true
+		}
+	}
+	return false
 }
 
 // SameWord strips pointer conversions and calls of identity helpers (a function that returns its only parameter,
@@ -725,10 +739,8 @@ func (m *Model) buildMap(named *types.Named, iface string) *MapModel {
 	for _, bt := range mm.BucketT {
 		if obj := p.Xsync.Pkg.Scope().Lookup(bt); obj != nil {
 			if bs := structOf(obj.Type()); bs != nil {
-				for i := 0; i < bs.NumFields(); i++ {
-					if n, ok := bs.Field(i).Type().(*types.Named); ok && n.Obj().Pkg() != nil && n.Obj().Pkg().Path() == "sync" && n.Obj().Name() == "Mutex" {
-						mm.LockKind = "mutex"
-					}
+				if holdsMutex(bs, 0) {
+					mm.LockKind = "mutex"
 				}
 			}
 		}
